@@ -11,10 +11,16 @@
 (* side starts only after BOTH sides ended iteration i (round-synchronised  *)
 (* producers, see comp/Start.tla).                                          *)
 (***************************************************************************)
-EXTENDS Naturals, Sequences, TLC, Json, IOUtils
+EXTENDS Naturals, Sequences, TLC, Json, IOUtils, SequencesExt
 
-(* the input scripts: one JSON object {id, left, right} per line of the file named by IOEnv.CASES *)
-Cases == ndJsonDeserialize(IOEnv.CASES)
+(* the input scripts: one JSON object {id, left, right} per line of the file named by IOEnv.CASES; *)
+(* without that file: every pair of two-iteration scripts over a small domain (join keys are the   *)
+(* values mod 2, so 1 and 3 share a key): what one iteration leaves behind in a stateful operator  *)
+(* meets every possible content of the next one (C05 "carry nothing over", C08, C09).              *)
+GenLists == {<<>>, <<1>>, <<2>>, <<3>>, <<2, 1>>}
+GenCases == SetToSeq({[id |-> ToString(<<a, b, x, y>>), left |-> <<a, b>>, right |-> <<x, y>>] :
+                         a \in GenLists, b \in GenLists, x \in GenLists, y \in GenLists})
+Cases == IF "CASES" \in DOMAIN IOEnv THEN ndJsonDeserialize(IOEnv.CASES) ELSE GenCases
 
 VARIABLES c, it, li, ri, lend, rend, order, done
 vars == <<c, it, li, ri, lend, rend, order, done>>
@@ -52,5 +58,5 @@ Term == /\ ~done /\ it > ITERS
 Next == LData \/ RData \/ LEnd \/ REnd \/ Term
 Spec == Init /\ [][Next]_vars
 
-EmitReplay == done => PrintT(<<"REPLAY", ToJson([id |-> Cases[c].id, order |-> order])>>)
+EmitReplay == done => PrintT(<<"REPLAY", ToJson([id |-> Cases[c].id, left |-> Left, right |-> Right, order |-> order])>>)
 =============================================================================
